@@ -45,6 +45,9 @@ type RTCase struct {
 	Pretty  int     `json:"pretty"`
 	Persist string  `json:"persist"`
 	Seq     gen.Seq `json:"seq"`
+	// Chunk > 0: the stream texts are read a second time through a reader that hands out at most Chunk bytes per
+	// Read call (an io.Reader may return short reads at any byte, e.g. a pipe or a socket), which must not matter.
+	Chunk int `json:"chunk,omitempty"`
 }
 
 func (c RTCase) persist() *regexp.Regexp {
@@ -114,8 +117,27 @@ func compare(want, got zed.Value) (kind, msg string) {
 	return "", ""
 }
 
+// chunkReader returns at most n bytes per Read.
+type chunkReader struct {
+	s string
+	n int
+}
+
+func (c *chunkReader) Read(p []byte) (int, error) {
+	if len(c.s) == 0 {
+		return 0, io.EOF
+	}
+	k := copy(p[:min(len(p), c.n)], c.s)
+	c.s = c.s[k:]
+	return k, nil
+}
+
 func readAll(zctx *zed.Context, text string) ([]zed.Value, error) {
-	r := zsonio.NewReader(zctx, strings.NewReader(text))
+	return readAllFrom(zctx, strings.NewReader(text))
+}
+
+func readAllFrom(zctx *zed.Context, rd io.Reader) ([]zed.Value, error) {
+	r := zsonio.NewReader(zctx, rd)
 	var out []zed.Value
 	for {
 		v, err := r.Read()
@@ -143,6 +165,21 @@ func (c RTCase) checkStream(mode, text string) *rtFail {
 	}
 	if len(got) != len(vals) {
 		return &rtFail{mode, "count-differs", n, fmt.Sprintf("wrote %d values, read %d; stream text: %s", len(vals), len(got), clip(text)), text, ""}
+	}
+	if c.Chunk > 0 {
+		// the same text through short reads: same values, no error
+		cgot, cerr := readAllFrom(zed.NewContext(), &chunkReader{text, c.Chunk})
+		for i := 0; i < min(len(cgot), len(vals)); i++ {
+			if kind, msg := compare(vals[i], cgot[i]); kind != "" {
+				return &rtFail{mode + "-short-reads", kind, i, fmt.Sprintf("read through a reader returning at most %d bytes per call: %s; stream text: %s", c.Chunk, msg, clip(text)), text, ""}
+			}
+		}
+		if cerr != nil {
+			return &rtFail{mode + "-short-reads", "parse-error", len(cgot), fmt.Sprintf("read through a reader returning at most %d bytes per call: reader error after %d of %d values: %v (reading the whole text at once succeeds); stream text: %s", c.Chunk, len(cgot), len(vals), cerr, clip(text)), text, cerr.Error()}
+		}
+		if len(cgot) != len(vals) {
+			return &rtFail{mode + "-short-reads", "count-differs", len(cgot), fmt.Sprintf("read through a reader returning at most %d bytes per call: wrote %d values, read %d; stream text: %s", c.Chunk, len(vals), len(cgot), clip(text)), text, ""}
+		}
 	}
 	// same context: the types must come back as the identical pointers
 	got, err = readAll(c.Seq.Zctx, text)
@@ -1062,6 +1099,7 @@ func genRT(to gen.TypeOpts, vo gen.ValOpts) func(t *rapid.T) RTCase {
 		c := RTCase{
 			Pretty:  rapid.SampledFrom([]int{0, 0, 2, 4}).Draw(t, "pretty"),
 			Persist: rapid.SampledFrom([]string{"", "", ".*", "^foo$"}).Draw(t, "persist"),
+			Chunk:   rapid.SampledFrom([]int{0, 1, 2, 3, 5, 7, 64}).Draw(t, "chunk"),
 		}
 		maxLen, depth := 6, 3
 		if vt.Thorough() {
@@ -1213,7 +1251,7 @@ func runRT(ladder []neutraliser, symptoms []symptom) func(c RTCase) *vt.Outcome 
 const rtRule = "case = (pretty in {0,2,4}, persist regexp in {nil, `.*`, `^foo$`}, sequence of 0..6 (thorough 0..12) generated values over 1..4 types of depth<=3 (thorough 4) " +
 	"with keyword/quoted/unicode field names, type names and enum symbols); every case is run through three typedef scopes: per value (FormatValue or a fresh Formatter.Format -> ParseValue), " +
 	"zsonio.Writer (FormatRecord) -> zsonio.Reader, and one Formatter reused with Format -> zsonio.Reader. Oracle: read back in a fresh context = same canonical type bytes and value bytes (NaN=NaN), " +
-	"same count; read back in the writer's context = identical type pointer. Non-trivial: some value's type is not implied (needs a decorator) or contains union/named/enum/error/map/set/type value or a name that needs quoting; " +
+	"same count; read back in the writer's context = identical type pointer; and (6 of 7 cases) both stream texts read once more through a reader that returns at most 1/2/3/5/7/64 bytes per call give the same values. Non-trivial: some value's type is not implied (needs a decorator) or contains union/named/enum/error/map/set/type value or a name that needs quoting; " +
 	"distinct = distinct case digest."
 
 var propRT = &vt.Prop[RTCase]{
